@@ -3,6 +3,7 @@ package c14
 import (
 	"github.com/0xReLogic/Helios/verifharness/lab"
 	"pgregory.net/rapid"
+	"strings"
 )
 
 var statuses = []int{200, 201, 202, 204, 206, 301, 302, 304, 400, 404, 418, 429, 500, 502, 503}
@@ -94,9 +95,33 @@ var reqExtra = [][]lab.KV{
 	{{K: "Connection", V: "close"}},
 }
 
+// upgradeHeaders are header groups of ORDINARY requests that merely carry an Upgrade offer (a browser or
+// client library that would accept WebSocket / h2c). The backend does not switch protocols, so the exchange
+// is a plain HTTP exchange and both limits apply to it exactly as without these fields.
+var upgradeHeaders = [][]lab.KV{
+	{{K: "Upgrade", V: "websocket"}},
+	{{K: "Connection", V: "Upgrade"}, {K: "Upgrade", V: "websocket"}},
+	{{K: "Connection", V: "keep-alive, Upgrade"}, {K: "Upgrade", V: "websocket"}, {K: "Sec-WebSocket-Key", V: "dGhlIHNhbXBsZSBub25jZQ=="}, {K: "Sec-WebSocket-Version", V: "13"}},
+	{{K: "Upgrade", V: "h2c"}},
+	{{K: "Connection", V: "Upgrade, HTTP2-Settings"}, {K: "Upgrade", V: "h2c"}, {K: "HTTP2-Settings", V: "AAMAAABkAAQAAP__"}},
+	{{K: "connection", V: "upgrade"}, {K: "upgrade", V: "WebSocket"}},
+}
+
+func carriesUpgrade(h []lab.KV) bool {
+	for _, kv := range h {
+		if strings.EqualFold(kv.K, "Upgrade") {
+			return true
+		}
+	}
+	return false
+}
+
 func genRequest(t *rapid.T, c Chain, allowHEAD bool) lab.RawRequest {
 	r := lab.RawRequest{Target: rapid.SampledFrom([]string{"/", "/upload", "/a/b?x=1"}).Draw(t, "target"), Framing: "none"}
 	r.Header = append([]lab.KV{{K: "Host", V: "helios.test"}}, rapid.SampledFrom(reqExtra).Draw(t, "reqhdr")...)
+	if rapid.IntRange(0, 3).Draw(t, "upgrade-offer") == 3 {
+		r.Header = append(r.Header, rapid.SampledFrom(upgradeHeaders).Draw(t, "upgrade-hdr")...)
+	}
 	if rapid.IntRange(0, 2).Draw(t, "withbody") == 0 {
 		ms := []string{"GET", "GET", "DELETE"}
 		if allowHEAD {
